@@ -102,8 +102,8 @@ def _offset(info, ri, rj):
 def oracle(s, r):
     viols, stats = [], {}
     n = _check_level(s, r, "", viols, stats, 0)
-    if n < 5:
-        viols.append(("missing-matrices", "expected give x4 + take, got %d" % n, {}))
+    if n < 10:
+        viols.append(("missing-matrices", "expected (give x4 + take) x 2 thread counts, got %d" % n, {}))
     nl = int(r["chain_levels"][0, 0]) if "chain_levels" in r else 1
     stats["levels"] = nl
     for d in range(1, nl):
@@ -123,8 +123,8 @@ def oracle(s, r):
 def cases_for(tier):
     if tier == "thorough":
         return ol.lattice([5, 6, 7, 8, 9, 11, 13, 17], [4, 8, 12, 16, 20, 24, 32], "geo,A,chain", tier,
-                          cycle_offsets=(0, 1, 2, 3), threads_cycle=(1, 1, 3))
-    return ol.lattice([5, 6, 7, 8, 9, 11], [4, 8, 12, 16], "geo,A,chain", tier, threads_cycle=(1, 1, 1, 3))
+                          cycle_offsets=(0, 1, 2, 3), extra={"tlist": "1,3"})
+    return ol.lattice([5, 6, 7, 8, 9, 11], [4, 8, 12, 16], "geo,A,chain", tier, extra={"tlist": "1,3"})
 
 
 def run(tier, cases=None, rep=None):
